@@ -1,4 +1,5 @@
 import PfdlModel.Syntax
+import PfdlProofs.JsonRoundTrip
 /-! The statement-level parser is a left inverse of the printer: `parse (prDefs sty ds) = some ds`. -/
 namespace Pfdl.Syntax
 open Pfdl
@@ -134,7 +135,7 @@ theorem pSegs_pr : ∀ (ss : List Seg) (f : Nat) (r : TS),
 theorem dropNl_nl (l : Nat) {r : TS} (h : startsNl r = false) : dropNl (⟨.nl, l⟩ :: r) = r := by
   simp [dropNl, dropNl_id h]
 
-theorem pParam_pr (sty : String → String → LitStyle) (p : Param) (f : Nat) (r : TS) (hok : p.Ok)
+theorem pParam_pr (sty : Style) (p : Param) (f : Nat) (r : TS) (hok : p.Ok)
     (hf : (prParam sty p).length ≤ f) (hnl : startsNl r = false) :
     pParam f (prParam sty p ++ r) = some (p, r) := by
   cases p with
@@ -157,31 +158,31 @@ theorem pParam_pr (sty : String → String → LitStyle) (p : Param) (f : Nat) (
   | lit s j =>
     simp only [prParam]
     cases sty s j with
-    | sameLine => simp [pParam, t, dropNl, dropNl_id hnl]
-    | nextLine => simp [pParam, t, dropNl, dropNl_id hnl]
-    | indented => simp [pParam, t, pNl1, dropNl]
+    | sameLine => simp [pParam, t, dropNl, dropNl_id hnl, Json.parseObj_pr]
+    | nextLine => simp [pParam, t, dropNl, dropNl_id hnl, Json.parseObj_pr]
+    | indented => simp [pParam, t, pNl1, dropNl, Json.parseObj_pr]
 
-theorem prParam_startsParam (sty : String → String → LitStyle) (p : Param) (r : TS) :
+theorem prParam_startsParam (sty : Style) (p : Param) (r : TS) :
     startsParam (prParam sty p ++ r) = true := by
   cases p with
   | var x => rfl
   | path x ss => rfl
   | lit s j => simp only [prParam]; cases sty s j <;> rfl
 
-theorem prParam_startsNl (sty : String → String → LitStyle) (p : Param) (r : TS) :
+theorem prParam_startsNl (sty : Style) (p : Param) (r : TS) :
     startsNl (prParam sty p ++ r) = false := by
   cases p with
   | var x => rfl
   | path x ss => rfl
   | lit s j => simp only [prParam]; cases sty s j <;> rfl
 
-theorem prParam_len (sty : String → String → LitStyle) (p : Param) : 2 ≤ (prParam sty p).length := by
+theorem prParam_len (sty : Style) (p : Param) : 2 ≤ (prParam sty p).length := by
   cases p with
   | var x => simp [prParam]
   | path x ss => simp [prParam]
   | lit s j => simp only [prParam]; cases sty s j <;> simp
 
-theorem pParams_pr (sty : String → String → LitStyle) : ∀ (ps : List Param) (f : Nat) (r : TS), ps ≠ [] →
+theorem pParams_pr (sty : Style) : ∀ (ps : List Param) (f : Nat) (r : TS), ps ≠ [] →
     (∀ p ∈ ps, p.Ok) → (prParams sty ps).length < f → startsParam r = false → startsNl r = false →
     pParams f (prParams sty ps ++ r) = some (ps, r)
   | [], _, _, h, _, _, _, _ => absurd rfl h
@@ -210,7 +211,7 @@ theorem pParams_pr (sty : String → String → LitStyle) : ∀ (ps : List Param
       rw [pParams_pr sty (q :: qs) f r (by simp) (fun a ha => hok a (by simp [ha])) hlen2 hsp hnl]
 
 
-theorem pCallRest_pr (sty : String → String → LitStyle) (ins : List Param) (outs : List (String × VarTy))
+theorem pCallRest_pr (sty : Style) (ins : List Param) (outs : List (String × VarTy))
     (f : Nat) (r : TS) (hok : ∀ p ∈ ins, p.Ok) (hf : (prCallRest sty ins outs).length ≤ f)
     (hnl : startsNl r = false) :
     pCallRest f (prCallRest sty ins outs ++ r) = some ((ins, outs), r) := by
@@ -245,11 +246,11 @@ theorem pCallRest_pr (sty : String → String → LitStyle) (ins : List Param) (
       simp only [List.nil_append, pCallOut]
       rw [pVarDefs_pr (d :: ds) f _ (by simp) hlen2 rfl rfl]
 
-theorem prCallRest_len (sty : String → String → LitStyle) (ins : List Param) (outs : List (String × VarTy)) :
+theorem prCallRest_len (sty : Style) (ins : List Param) (outs : List (String × VarTy)) :
     1 ≤ (prCallRest sty ins outs).length := by
   unfold prCallRest; split <;> simp
 
-theorem pCalls_pr (sty : String → String → LitStyle) : ∀ (cs : List Call) (f : Nat) (r : TS), cs ≠ [] →
+theorem pCalls_pr (sty : Style) : ∀ (cs : List Call) (f : Nat) (r : TS), cs ≠ [] →
     (∀ c ∈ cs, c.Ok) → (prCalls sty cs).length ≤ f → startsLo r = false → startsNl r = false →
     pCalls f (prCalls sty cs ++ r) = some (cs, r)
   | [], _, _, h, _, _, _, _ => absurd rfl h
@@ -349,7 +350,7 @@ theorem afterStmt_nl {r : TS} (h : afterStmt r = true) : startsNl r = false := b
   | ⟨.lo _, _⟩ :: _, _ | ⟨.up _, _⟩ :: _, _ | ⟨.kw .parallel, _⟩ :: _, _ | ⟨.kw .loop, _⟩ :: _, _
   | ⟨.kw .condition, _⟩ :: _, _ | ⟨.ded, _⟩ :: _, _ | ⟨.kw .out, _⟩ :: _, _ => rfl
 
-theorem prStmt_after (sty : String → String → LitStyle) (s : Stmt) (r : TS) :
+theorem prStmt_after (sty : Style) (s : Stmt) (r : TS) :
     afterStmt (prStmt sty s ++ r) = true ∧ startsStmt (prStmt sty s ++ r) = true := by
   cases s with
   | svc c => simp [prStmt, afterStmt, startsStmt, t]
@@ -360,13 +361,13 @@ theorem prStmt_after (sty : String → String → LitStyle) (s : Stmt) (r : TS) 
   | cond e p q l => cases q <;> simp [prStmt, afterStmt, startsStmt, t]
 
 
-theorem prStmts_ne (sty : String → String → LitStyle) {ss : List Stmt} (h : ss ≠ []) (r : TS) :
+theorem prStmts_ne (sty : Style) {ss : List Stmt} (h : ss ≠ []) (r : TS) :
     afterStmt (prStmts sty ss ++ r) = true ∧ startsStmt (prStmts sty ss ++ r) = true := by
   cases ss with
   | nil => exact absurd rfl h
   | cons s ss => simp only [prStmts, List.append_assoc]; exact prStmt_after sty s _
 
-theorem prStmt_len (sty : String → String → LitStyle) (s : Stmt) : 2 ≤ (prStmt sty s).length := by
+theorem prStmt_len (sty : Style) (s : Stmt) : 2 ≤ (prStmt sty s).length := by
   cases s with
   | svc c => have := prCallRest_len sty c.ins c.outs; simp [prStmt]; omega
   | call c => have := prCallRest_len sty c.ins c.outs; simp [prStmt]; omega
@@ -376,7 +377,7 @@ theorem prStmt_len (sty : String → String → LitStyle) (s : Stmt) : 2 ≤ (pr
   | cond e p q l => cases q <;> simp [prStmt]
 
 mutual
-theorem pStmt_pr (sty : String → String → LitStyle) : ∀ (f : Nat) (s : Stmt) (r : TS), s.Ok →
+theorem pStmt_pr (sty : Style) : ∀ (f : Nat) (s : Stmt) (r : TS), s.Ok →
     (prStmt sty s).length ≤ f → afterStmt r = true →
     pStmt f (prStmt sty s ++ r) = some (s, r)
   | 0, s, _, _, hf, _ => by have := prStmt_len sty s; omega
@@ -446,7 +447,7 @@ theorem pStmt_pr (sty : String → String → LitStyle) : ∀ (f : Nat) (s : Stm
     simp only
     rw [pStmts_pr sty f q _ hok.2.2.2.1 hok.2.2.2.2 hlen2 rfl]
     simp
-theorem pStmts_pr (sty : String → String → LitStyle) : ∀ (f : Nat) (ss : List Stmt) (r : TS), ss ≠ [] →
+theorem pStmts_pr (sty : Style) : ∀ (f : Nat) (ss : List Stmt) (r : TS), ss ≠ [] →
     StmtsOk ss → (prStmts sty ss).length < f → afterStmts r = true →
     pStmts f (prStmts sty ss ++ r) = some (ss, r)
   | _, [], _, h, _, _, _ => absurd rfl h
@@ -508,7 +509,7 @@ theorem pTaskOut_pr (outs : List String) (f : Nat) (r : TS) (hf : (prTaskOut out
 theorem prTaskOut_after (outs : List String) (r : TS) : afterStmts (prTaskOut outs ++ ⟨.ded, 0⟩ :: r) = true := by
   cases outs <;> simp [prTaskOut, afterStmts, t]
 
-theorem pTask_pr (sty : String → String → LitStyle) (k : Task) (f : Nat) (r : TS) (hne : k.body ≠ [])
+theorem pTask_pr (sty : Style) (k : Task) (f : Nat) (r : TS) (hne : k.body ≠ [])
     (hok : StmtsOk k.body) (hf : (prTask sty k).length ≤ f + 1) :
     pTask f k.line ((prTask sty k).tail ++ r) = some (k, ⟨.nl, 0⟩ :: r) := by
   obtain ⟨n, ins, body, outs, l⟩ := k
@@ -525,9 +526,9 @@ theorem pTask_pr (sty : String → String → LitStyle) (k : Task) (f : Nat) (r 
   simp
 
 theorem prStruct_len (s : Struct) : 1 ≤ (prStruct s).length := by simp [prStruct]
-theorem prTask_len (sty : String → String → LitStyle) (k : Task) : 1 ≤ (prTask sty k).length := by simp [prTask]
+theorem prTask_len (sty : Style) (k : Task) : 1 ≤ (prTask sty k).length := by simp [prTask]
 
-theorem pDefs_pr (sty : String → String → LitStyle) : ∀ (ds : List Def) (f : Nat), (∀ d ∈ ds, d.Ok) →
+theorem pDefs_pr (sty : Style) : ∀ (ds : List Def) (f : Nat), (∀ d ∈ ds, d.Ok) →
     (prDefs sty ds).length < f → pDefs f (prDefs sty ds) = some ds
   | [], 0, _, hf => by omega
   | [], f + 1, _, _ => rfl
@@ -564,7 +565,7 @@ theorem pDefs_pr (sty : String → String → LitStyle) : ∀ (ds : List Def) (f
 /-- **the parser is a left inverse of the printer**: whatever model is written down (in any of the literal
     placements), reading the token stream gives that model back – definitions, statements, parameters, literals
     and expressions, in their order and nesting, with the line of each construct. -/
-theorem parse_print (sty : String → String → LitStyle) (ds : List Def) (hok : ∀ d ∈ ds, d.Ok) :
+theorem parse_print (sty : Style) (ds : List Def) (hok : ∀ d ∈ ds, d.Ok) :
     parse (prDefs sty ds) = some ds :=
   pDefs_pr sty ds _ hok (Nat.lt_succ_self _)
 
